@@ -68,6 +68,13 @@ impl FloatEnc for f32 {
 ///   {"tag":"nan"|"inf"|"-inf"|"-0"}     specials
 ///   {"dec":"0.95"}                      decimal string (correctly rounded parse)
 ///   {"bits":"3ff0000000000000"}         raw f64 bits
+/// x * 2^p without intermediate overflow / underflow (exact whenever the result is representable)
+pub fn ldexp(mut x: f64, mut p: i64) -> f64 {
+    while p > 500 { x *= (2f64).powi(500); p -= 500; }
+    while p < -500 { x *= (2f64).powi(-500); p += 500; }
+    x * (2f64).powi(p as i32)
+}
+
 pub fn dec_f64(v: &Value) -> f64 {
     if let Some(i) = v.as_i64() {
         return i as f64;
@@ -113,7 +120,7 @@ pub fn dec_f64(v: &Value) -> f64 {
         return f64::from_bits(u64::from_str_radix(b, 16).expect("bits"));
     }
     if let (Some(n), Some(p)) = (v.get("n").and_then(|x| x.as_i64()), v.get("p").and_then(|x| x.as_i64())) {
-        return (n as f64) * (2f64).powi(p as i32);
+        return ldexp(n as f64, p);
     }
     if let Some(m) = v.get("m").and_then(|x| x.as_array()) {
         let mut acc: u128 = 0;
@@ -123,11 +130,7 @@ pub fn dec_f64(v: &Value) -> f64 {
         let e = v["e"].as_i64().unwrap();
         let s = v["s"].as_i64().unwrap_or(0);
         // exact when acc < 2^53 and the exponent is in range (the generator guarantees it)
-        let mut x = acc as f64;
-        x *= (2f64).powi(e.clamp(-1000, 1000) as i32);
-        if e < -1000 {
-            x *= (2f64).powi((e + 1000) as i32);
-        }
+        let x = ldexp(acc as f64, e);
         return if s == 1 { -x } else { x };
     }
     panic!("dec_f64: cannot decode {}", v);
